@@ -280,7 +280,7 @@ func execute(run *ev.Run, s *spec, router int, pl pool) {
 		if s.CredPlace == placeQuery && (p.rightSecret || p.validAssertion) {
 			run.Observed("ok-with-credentials-in-query-only:" + rn)
 		}
-		if (p.canonical || s.Auth == authNone) && !s.gtDiffers() {
+		if (p.canonical || s.Auth == authNone) && !s.gtDiffers() && s.OddAuth == "" {
 			run.Observed("ok:" + cell)
 			run.Count("positive_cells", cell+":"+authNames[s.Auth])
 		}
